@@ -29,9 +29,11 @@ inductive Err where
   | value | zerodiv | index
   deriving DecidableEq, Repr
 
-/-- `asIs` = the code as it is.  `repaired` = the same code with one extra guard at the top of the
-    `xyz_reader` loop: a line that does not (yet) end in a newline is not processed
-    (`if not line.endswith("\n"): return trajectory`). -/
+/-- `repaired` = the code as it is NOW; `asIs` = the code as it was found, kept as a record of two repaired
+    defects.  `xyz_reader` (fix 807db24): `repaired` has one extra guard at the top of the loop, a line that does
+    not (yet) end in a newline is not processed (`if not line.endswith("\n"): return trajectory`).
+    `lammpstrj_reader` (fix dfb19e7): the late-line-end skip at the start of a poll, `asIs`: `line == "\n"`,
+    `repaired`: `line.endswith("\n") and not line.strip()`. -/
 inductive Variant where
   | asIs | repaired
   deriving DecidableEq, Repr
@@ -257,10 +259,19 @@ def lBody (st : LSt) (line : Line) (spl : List Tok) (tell' : Nat) : Res LSt (Lis
           else .err .value
   else .cont (lEnd st tell')
 
-def lmpStep (st : LSt) (line : Line) : Res LSt (List LFrame × Nat) :=
+/-- the first line of a poll is the rest of a line end that arrived late.
+    `asIs`: `line == "\n"`; `repaired`: `line.endswith("\n") and not line.strip()` — white space only
+    (`str.strip()` strips the white-space set `str.split()` splits at) and terminated; a white-space-only line
+    WITHOUT newline is not skipped. -/
+def lmpLate (v : Variant) (line : Line) : Bool :=
+  match v with
+  | .asIs => line == ['\n']
+  | .repaired => endsNl line && line.all isBlank
+
+def lmpStep (v : Variant) (st : LSt) (line : Line) : Res LSt (List LFrame × Nat) :=
   let tell' := st.tell + line.length
-  -- `if i == 0 and line == "\n"`: a newline that arrived late is skipped in a poll of its own
-  if st.i = 0 ∧ line = ['\n'] then .ret (st.traj, tell') else
+  -- a line end (newline, or blanks and newline) that arrived late is skipped in a poll of its own
+  if st.i = 0 ∧ lmpLate v line = true then .ret (st.traj, tell') else
   let spl := split line
   if st.i = 3 then
     if spl.isEmpty ∨ endsNl line = false then .ret (st.traj, st.pos)
@@ -274,17 +285,17 @@ def lmpStep (st : LSt) (line : Line) : Res LSt (List LFrame × Nat) :=
                           box := zeros 3 3 } line spl tell'
   else lBody st line spl tell'
 
-def lmpRun : List Line → LSt → Res LSt (List LFrame × Nat)
+def lmpRun (v : Variant) : List Line → LSt → Res LSt (List LFrame × Nat)
   | [], st => .cont st
   | l :: ls, st =>
-    match lmpStep st l with
-    | .cont st' => lmpRun ls st'
+    match lmpStep v st l with
+    | .cont st' => lmpRun v ls st'
     | .ret r => .ret r
     | .err e => .err e
 
 /-- one `read_and_process_content()` with `lammpstrj_reader`: `((trajectory, box) zipped, position)` -/
-def lmpReader (content : List Char) (pos : Nat) : Except Err (List LFrame × Nat) :=
-  finish (fun st => (st.traj, st.pos)) (lmpRun (lines (content.drop pos)) (lInit pos))
+def lmpReader (v : Variant) (content : List Char) (pos : Nat) : Except Err (List LFrame × Nat) :=
+  finish (fun st => (st.traj, st.pos)) (lmpRun v (lines (content.drop pos)) (lInit pos))
 
 /-! ### polling a growing file -/
 
